@@ -277,7 +277,7 @@ func runPairs(e *lib.Env, mods []stateMod, cal *calibration, statePs []*statePro
 		}
 		bump("ordered_pairs_differing")
 		lostAll := b.labels && got.lost && got2.lost && !b.base.lost
-		report := func(culprit, id string, gotv string) {
+		report := func(culprit, id string, gotv string, srcA string) {
 			// key by the observing module (probe.X and post.X are the same observation taken
 			// before and after B's own touches); the text names the exact label
 			obsName := strings.TrimPrefix(strings.TrimPrefix(id, "probe."), "post.")
@@ -297,12 +297,12 @@ func runPairs(e *lib.Env, mods []stateMod, cal *calibration, statePs []*statePro
 				b.name, a.name, culprit, id, clip(b.base.val[id], 300), clip(gotv, 300))
 			var sb strings.Builder
 			sb.WriteString("C20 fresh-VM pair. Re-run: write the two programs to files A.php and B.php and run `.build/c20 worker B.php` and `.build/c20 worker A.php B.php`;\ncompare what follows the @@C20-NEXT-PROGRAM@@ marker.\n\n" + what + "\n\n")
-			sb.WriteString("==== program A (" + a.name + ") ====\n" + a.src + "\n==== program B (" + b.name + ") ====\n" + b.src + "\n")
+			sb.WriteString("==== program A (" + a.name + ") ====\n" + srcA + "\n==== program B (" + b.name + ") ====\n" + b.src + "\n")
 			sb.WriteString("==== B alone: stdout section ====\n" + clip(joinObs(b.base), 6000) + "\n==== B after A: stdout section ====\n" + clip(so, 6000) + "\n==== B after A: stderr section ====\n" + clip(se, 3000) + "\n")
 			e.Violation(key, what, "txt", []byte(sb.String()))
 		}
 		if a.state == nil || b.state == nil {
-			report(a.class, confirmed[0], got.val[confirmed[0]])
+			report(a.class, confirmed[0], got.val[confirmed[0]], a.src)
 			return
 		}
 		// attribution. First the program without any touch (same declarations, same probes):
@@ -325,14 +325,7 @@ func runPairs(e *lib.Env, mods []stateMod, cal *calibration, statePs []*statePro
 			}
 			return o.val[id] != b.base.val[id]
 		}
-		reportAs := func(culprit, id, gotv, srcA string) {
-			tmp := *a
-			tmp.src = srcA
-			saveA := a
-			a = &tmp
-			report(culprit, id, gotv)
-			a = saveA
-		}
+		reportAs := func(culprit, id, gotv, srcA string) { report(culprit, id, gotv, srcA) }
 		o0, src0, ok0 := runVariant("no-touch", map[string]bool{})
 		if ok0 {
 			first := true
@@ -367,7 +360,7 @@ func runPairs(e *lib.Env, mods []stateMod, cal *calibration, statePs []*statePro
 		}
 		for _, id := range confirmed {
 			if !attributed["@"+id] {
-				report("combination", id, got.val[id])
+				report("combination", id, got.val[id], a.src)
 				break
 			}
 		}
